@@ -73,8 +73,8 @@ func (e *Engine) axioms() []axiom {
 	st := e.sentinelTag()
 	return []axiom{
 		{"(slot ", `(assert (forall ((o Int) (i Int)) (! (= (slot o i) (+ o i)) :pattern ((slot o i)))))`},
-		{"(el ", `(assert (forall ((b Int) (i Int)) (! (and (= (el_base (el b i)) b) (= (el_idx (el b i)) i) (> (el b i) 1000)) :pattern ((el b i)))))`},
-		{"(fa ", `(assert (forall ((c Int) (r Int)) (! (and (= (fa_code (fa c r)) c) (= (fa_root (fa c r)) r) (> (fa c r) 1000)) :pattern ((fa c r)))))`},
+		{"(el ", `(assert (forall ((b Int) (i Int)) (! (and (= (el_base (el b i)) b) (= (el_idx (el b i)) i) (< (el b i) (- 1000))) :pattern ((el b i)))))`},
+		{"(fa ", `(assert (forall ((c Int) (r Int)) (! (and (= (fa_code (fa c r)) c) (= (fa_root (fa c r)) r) (< (fa c r) (- 1000))) :pattern ((fa c r)))))`},
 		{"(pair ", `(assert (forall ((a Int) (b Int)) (! (and (= (pair_fst (pair a b)) a) (= (pair_snd (pair a b)) b)) :pattern ((pair a b)))))`},
 		{"(boxreal ", `(assert (forall ((x Real)) (! (= (unboxreal (boxreal x)) x) :pattern ((boxreal x)))))`},
 		{"(strlen ", `(assert (forall ((s Int)) (! (>= (strlen s) 0) :pattern ((strlen s)))))`},
